@@ -2040,6 +2040,339 @@ example : ((ruleDataOf ⟨false, [], []⟩ (.syscall 3 (ofString "exit") (ofStri
       r.trips.all (fun t => !(t.1 == LA.Gen.RuleTables.archField) && !(t.1 == LA.Gen.RuleTables.permField)))) = some true := by
   decide +kernel
 
+/-! ### the text half composed over a whole line: the watch form -/
+
+/-- what `asFileWatch r = some (path, perm, key)` says about `r`, spelled out. -/
+theorem asFileWatch_some {r : RuleData} {path perm key : Bytes} (h : asFileWatch r = some (path, perm, key)) :
+    r.allSyscalls = true ∧ r.flags = LA.Gen.RuleTables.exitFilter ∧ r.action = LA.Gen.RuleTables.alwaysAction ∧
+    ∃ f0 v0 v1, (f0 = LA.Gen.RuleTables.pathField ∨ f0 = LA.Gen.RuleTables.dirField) ∧
+      path.head? = some 47 ∧ pathClean path = path ∧ v1 ≠ 0 ∧ v1 < 16 ∧ perm = permString v1 ∧
+      ((key = [] ∧ r.trips = [(f0, v0, eqOp), (LA.Gen.RuleTables.permField, v1, eqOp)] ∧ r.strings = [path]) ∨
+       (key ≠ [] ∧ (44 : Nat) ∉ key ∧ ∃ v2, r.trips = [(f0, v0, eqOp), (LA.Gen.RuleTables.permField, v1, eqOp), (LA.Gen.RuleTables.keyField, v2, eqOp)] ∧
+          r.strings = [path, key])) := by
+  unfold asFileWatch at h
+  simp only at h
+  split at h
+  · simp at h
+  · rename_i hc
+    split at h
+    · simp at h
+    · rename_i hops
+      simp only [Bool.or_eq_true, Bool.not_eq_true', bne_iff_ne, ne_eq, Bool.and_eq_true, not_or, not_and,
+        Decidable.not_not, Bool.not_eq_false] at hc hops
+      obtain ⟨⟨⟨⟨h1, h2⟩, h3⟩, h4⟩, h5⟩ := hc
+      refine ⟨h1, h2, h3, ?_⟩
+      -- the shape of the three lists
+      cases ht : r.trips with
+      | nil => simp [RuleData.fields, RuleData.values, ht] at h
+      | cons t0 rest0 =>
+        cases rest0 with
+        | nil => simp [RuleData.fields, RuleData.values, ht] at h
+        | cons t1 rest1 =>
+          cases hs : r.strings with
+          | nil => simp [RuleData.fields, RuleData.values, ht, hs] at h
+          | cons p srest =>
+            simp only [RuleData.fields, RuleData.values, RuleData.fieldFlags, ht, hs, List.map_cons] at h hops h4 h5
+            split at h
+            · simp at h
+            · rename_i hf
+              split at h
+              · simp at h
+              · rename_i hp
+                split at h
+                · simp at h
+                · rename_i hv
+                  simp only [Bool.or_eq_true, Bool.and_eq_true, bne_iff_ne, ne_eq, not_or, not_and, Decidable.not_not,
+                    Bool.not_eq_true', beq_iff_eq, Bool.or_eq_false_iff, beq_eq_false_iff_ne] at hf hp hv
+                  simp only [List.all_cons, Bool.and_eq_true, beq_iff_eq] at hops
+                  obtain ⟨ho0, ho1, horest⟩ := hops
+                  have hf0 : t0.1 = LA.Gen.RuleTables.pathField ∨ t0.1 = LA.Gen.RuleTables.dirField := by
+                    by_cases hh : t0.1 = LA.Gen.RuleTables.pathField
+                    · exact Or.inl hh
+                    · exact Or.inr (hf.1 hh)
+                  have hv1lt : t1.2.1 < 16 := by
+                    have := hv.2
+                    have hle : t1.2.1 &&& 15 ≤ 15 := Nat.and_le_right
+                    omega
+                  cases rest1 with
+                  | nil =>
+                    simp only [List.map_nil] at h
+                    simp only [Option.some.injEq, Prod.mk.injEq] at h
+                    obtain ⟨rfl, rfl, rfl⟩ := h
+                    simp only [List.length_cons, List.length_nil] at h5
+                    have hsr : srest = [] := by
+                      cases srest with
+                      | nil => rfl
+                      | cons _ _ => simp at h5
+                    refine ⟨t0.1, t0.2.1, t1.2.1, hf0, hp.1, hp.2, hv.1, hv1lt, rfl, Or.inl ⟨rfl, ?_, by rw [hsr]⟩⟩
+                    have e0 : t0 = (t0.1, t0.2.1, eqOp) := by rw [← ho0]
+                    have e1 : t1 = (LA.Gen.RuleTables.permField, t1.2.1, eqOp) := by rw [← ho1, ← hf.2]
+                    rw [← e0, ← e1]
+                  | cons t2 rest2 =>
+                    simp only [List.map_cons] at h
+                    cases srest with
+                    | nil => simp at h
+                    | cons k srest2 =>
+                      simp only at h
+                      split at h
+                      · simp at h
+                      · rename_i hk
+                        simp only [Bool.or_eq_true, bne_iff_ne, ne_eq, not_or, Decidable.not_not, Bool.not_eq_true',
+                          List.isEmpty_eq_false_iff, List.contains_eq_mem, decide_eq_false_iff_not, decide_eq_true_eq] at hk
+                        simp only [Option.some.injEq, Prod.mk.injEq] at h
+                        obtain ⟨rfl, rfl, rfl⟩ := h
+                        simp only [List.length_cons] at h4 h5
+                        have hr2 : rest2 = [] := by
+                          cases rest2 with
+                          | nil => rfl
+                          | cons _ _ => simp only [List.length_map, List.length_cons] at h4; omega
+                        subst hr2
+                        have hs2 : srest2 = [] := by
+                          cases srest2 with
+                          | nil => rfl
+                          | cons _ _ => simp only [List.length_map, List.length_cons, List.length_nil] at h5; omega
+                        subst hs2
+                        simp only [List.map_cons, List.map_nil, List.all_cons, List.all_nil, Bool.and_true, beq_iff_eq] at horest
+                        refine ⟨t0.1, t0.2.1, t1.2.1, hf0, hp.1, hp.2, hv.1, hv1lt, rfl, Or.inr ⟨?_, ?_, t2.2.1, ?_, rfl⟩⟩
+                        · intro hh; exact hk.1.2 (by rw [hh]; rfl)
+                        · exact hk.2
+                        · have e0 : t0 = (t0.1, t0.2.1, eqOp) := by rw [← ho0]
+                          have e1 : t1 = (LA.Gen.RuleTables.permField, t1.2.1, eqOp) := by rw [← ho1, ← hf.2]
+                          have e2 : t2 = (LA.Gen.RuleTables.keyField, t2.2.1, eqOp) := by rw [← horest, ← hk.1.1]
+                          rw [← e0, ← e1, ← e2]
+
+/-- the letters of a printed permission set are read back by the -p flag as codes that spell the
+same letters again (all 15 non-empty sets). -/
+theorem perm_letters_roundtrip : ∀ v < 16, v ≠ 0 →
+    ∃ codes, setPerms [] (permString v) = some codes ∧ codes.isEmpty = false ∧
+      codes.flatMap (fun p => if p == 1 then [114] else if p == 2 then [119] else if p == 3 then [120] else if p == 4 then [97] else []) = permString v := by
+  decide +kernel
+
+theorem splitByte_no_sep (sep : Nat) (s : Bytes) (h : sep ∉ s) : splitByte sep s = [s] := by
+  induction s with
+  | nil => rfl
+  | cons b bs ih =>
+    have hb : (b == sep) = false := by
+      have : b ≠ sep := fun e => h (by simp [e])
+      simpa using this
+    simp only [splitByte, ih (fun hh => h (by simp [hh])), hb, Bool.false_eq_true, if_false]
+
+def tokW : Bytes := [45, 119]  -- "-w"
+def tokP : Bytes := [45, 112]  -- "-p"
+def tokK : Bytes := [45, 107]  -- "-k"
+
+theorem parseLoop_w (fuel : Nat) (v : Bytes) (rest : List Bytes) (fs : FS) :
+    parseLoop (fuel + 1) (tokW :: v :: rest) fs = (setFlag fs 119 v).bind (parseLoop fuel rest) :=
+  parseLoop_value_flag 119 (by decide) (by decide) (by decide) fuel v rest fs
+theorem parseLoop_p (fuel : Nat) (v : Bytes) (rest : List Bytes) (fs : FS) :
+    parseLoop (fuel + 1) (tokP :: v :: rest) fs = (setFlag fs 112 v).bind (parseLoop fuel rest) :=
+  parseLoop_value_flag 112 (by decide) (by decide) (by decide) fuel v rest fs
+theorem parseLoop_k (fuel : Nat) (v : Bytes) (rest : List Bytes) (fs : FS) :
+    parseLoop (fuel + 1) (tokK :: v :: rest) fs = (setFlag fs 107 v).bind (parseLoop fuel rest) :=
+  parseLoop_value_flag 107 (by decide) (by decide) (by decide) fuel v rest fs
+
+/-- the mask of an all-syscalls rule does not depend on the syscall list it may still carry. -/
+theorem toWire_congr_all (r1 r2 : RuleData) (h1 : r1.flags = r2.flags) (h2 : r1.action = r2.action) (h3 : r1.trips = r2.trips)
+    (h4 : r1.strings = r2.strings) (h5 : r1.allSyscalls = true) (h6 : r2.allSyscalls = true) :
+    toWire r1 = toWire r2 := by
+  unfold toWire maskOf RuleData.fields RuleData.values RuleData.fieldFlags
+  rw [h1, h2, h3, h4, h5, h6]
+  simp
+
+/-- the tokens of a printed watch -/
+def watchTokens (path perm key : Bytes) : List Bytes :=
+  [tokW, path, tokP, perm] ++ (if key.isEmpty then [] else [tokK, key])
+
+/-- Second clause of C07 for the watch form. If ToCommandLine recognises a rule that Build accepted
+as a file watch (`asFileWatch`), and the path still is what it was when the rule was built (a
+directory exactly if the rule's first field is `dir`: the `-w` form re-derives the kind by stat),
+and the key is not padded with white space, then (1) the text is `-w path -p perm [-k key]`,
+(2) its tokens are accepted by flags.Parse as a watch with that path, those permissions and that
+key, and (3) Build on it yields byte-identical wire data. -/
+theorem C07_roundtrip_watch (env : Env) (rule : Rule) (r : RuleData)
+    (hr : ruleDataOf env rule = some r) (path perm key : Bytes)
+    (hw : asFileWatch r = some (path, perm, key))
+    (hfs : env.isDir = (r.fields.head? == some LA.Gen.RuleTables.dirField))
+    (hkey : trimSpace key = key) :
+    cmdLineOf r = some (joinWith [32] ([ofString "-w", path, ofString "-p", perm] ++ (if key.isEmpty then [] else [ofString "-k", key]))) ∧
+    ∃ rule' r', parseArgs (watchTokens path perm key) = some rule' ∧ ruleDataOf env rule' = some r' ∧ toWire r' = toWire r := by
+  have nd1 : (LA.Gen.RuleTables.fieldsTable.map (·.1)).Nodup := by decide +kernel
+  obtain ⟨hall, hfl, hac, f0, v0, v1, hf0, hhead, hclean, hv1, hv1lt, hperm, hshape⟩ := asFileWatch_some hw
+  have hsa := saligned_ruleDataOf hr
+  obtain ⟨codes, hcodes, hcne, hletters⟩ := perm_letters_roundtrip v1 hv1lt hv1
+  have hgp : getPerm (permString v1) = some v1 := C07_perm_print_parse v1 hv1lt
+  have hpathS : stringFields.contains LA.Gen.RuleTables.pathField = true := by decide +kernel
+  have hdirS : stringFields.contains LA.Gen.RuleTables.dirField = true := by decide +kernel
+  have hkeyS : stringFields.contains LA.Gen.RuleTables.keyField = true := by decide +kernel
+  have hpermS : stringFields.contains LA.Gen.RuleTables.permField = false := by decide +kernel
+  have hf0S : stringFields.contains f0 = true := by rcases hf0 with rfl | rfl <;> assumption
+  refine ⟨?_, ?_⟩
+  · -- (1)
+    unfold cmdLineOf
+    have hl : getList r.flags = some (ofString "exit") := by rw [hfl]; decide +kernel
+    have ha : getAction r.action = some (ofString "always") := by rw [hac]; decide +kernel
+    rw [hl, ha]
+    simp only [hw]
+  · -- (2), (3)
+    -- the name of the watch kind, as addFileWatch chooses it
+    have hkind : lookupB LA.Gen.RuleTables.fieldsTable (if env.isDir then ofString "dir" else ofString "path") = some f0 := by
+      have hd : lookupB LA.Gen.RuleTables.fieldsTable (ofString "dir") = some LA.Gen.RuleTables.dirField := by decide +kernel
+      have hp : lookupB LA.Gen.RuleTables.fieldsTable (ofString "path") = some LA.Gen.RuleTables.pathField := by decide +kernel
+      have hne : LA.Gen.RuleTables.pathField ≠ LA.Gen.RuleTables.dirField := by decide
+      have hfield : r.fields.head? = some f0 := by
+        rcases hshape with ⟨_, ht, _⟩ | ⟨_, _, v2, ht, _⟩ <;> simp [RuleData.fields, ht]
+      rw [hfs, hfield]
+      rcases hf0 with rfl | rfl
+      · have : (some LA.Gen.RuleTables.pathField == some LA.Gen.RuleTables.dirField) = false := by decide
+        simp only [this, Bool.false_eq_true, if_false, hp]
+      · simp only [beq_self_eq_true, if_true, hd]
+    have heq : lookupB LA.Gen.RuleTables.operatorsTable [61] = some eqOp := by decide +kernel
+    have hpermN : lookupB LA.Gen.RuleTables.fieldsTable (ofString "perm") = some LA.Gen.RuleTables.permField := by decide +kernel
+    have hkeyN : lookupB LA.Gen.RuleTables.fieldsTable (ofString "key") = some LA.Gen.RuleTables.keyField := by decide +kernel
+    have hexP : (LA.Gen.RuleTables.exitFilter == LA.Gen.RuleTables.excludeFilter) = false := by decide
+    let r0 : RuleData := { flags := LA.Gen.RuleTables.exitFilter, action := LA.Gen.RuleTables.alwaysAction, allSyscalls := true }
+    -- the pieces of the original rule
+    rcases hshape with ⟨hk0, ht, hs⟩ | ⟨hkne, hk44, v2, ht, hs⟩
+    · -- no key
+      subst hk0
+      rw [ht, hs, hfl] at hsa
+      simp only [SAligned, hf0S, if_true, hpermS, Bool.false_eq_true, if_false] at hsa
+      obtain ⟨s, rest, hsr, hv0, hok0, hrest⟩ := hsa
+      simp only [List.cons.injEq] at hsr
+      obtain ⟨rfl, rfl⟩ := hsr
+      have step0 : addFilter env r0 (if env.isDir then ofString "dir" else ofString "path") [61] path =
+          some { r0 with trips := [(f0, v0, eqOp)], strings := [path] } := by
+        unfold addFilter
+        simp only [heq, hkind, r0, hexP, Bool.false_and, Bool.false_eq_true, if_false]
+        have := hok0.1
+        simp only at this
+        rw [filterValue_flags0 env { flags := LA.Gen.RuleTables.exitFilter, action := LA.Gen.RuleTables.alwaysAction } { flags := LA.Gen.RuleTables.exitFilter } rfl, this]
+        simp [hv0]
+      have step1 : addFilter env { r0 with trips := [(f0, v0, eqOp)], strings := [path] } (ofString "perm") [61] (permString v1) =
+          some { r0 with trips := [(f0, v0, eqOp), (LA.Gen.RuleTables.permField, v1, eqOp)], strings := [path] } := by
+        unfold addFilter
+        simp only [heq, hpermN, r0, hexP, Bool.false_and, Bool.false_eq_true, if_false]
+        have hfv : filterValue env { r0 with trips := [(f0, v0, eqOp)], strings := [path] } LA.Gen.RuleTables.permField eqOp (permString v1) = some (v1, none, none) := by
+          unfold filterValue
+          simp only [r0, hgp, show uidFields.contains LA.Gen.RuleTables.permField = false by decide +kernel,
+            show gidFields.contains LA.Gen.RuleTables.permField = false by decide +kernel,
+            show (LA.Gen.RuleTables.permField == LA.Gen.RuleTables.exitField) = false by decide,
+            show (LA.Gen.RuleTables.permField == LA.Gen.RuleTables.msgTypeField) = false by decide, hpermS,
+            show (LA.Gen.RuleTables.permField == LA.Gen.RuleTables.archField) = false by decide,
+            show (LA.Gen.RuleTables.exitFilter != LA.Gen.RuleTables.exitFilter) = false by decide,
+            show (eqOp != eqOp) = false by decide, Bool.false_eq_true, if_false, beq_self_eq_true, if_true, Option.map_some]
+        simp only [r0] at hfv
+        rw [hfv]
+        simp
+      have hwt : watchTokens path (permString v1) [] = [tokW, path, tokP, permString v1] := by simp [watchTokens]
+      have hparse : parseArgs (watchTokens path (permString v1) []) = some (.watch path codes []) := by
+        rw [hwt]
+        unfold parseArgs
+        have : parseLoop ([tokW, path, tokP, permString v1].length + 1) [tokW, path, tokP, permString v1] {} =
+            some ({ path := path, pathSet := true, perms := codes, visited := [119, 112] }, 0) := by
+          show parseLoop (4 + 1) _ _ = _
+          rw [parseLoop_w]
+          have s1 : setFlag {} 119 path = some { path := path, pathSet := true, visited := [119] } := by
+            simp [setFlag]
+          rw [s1]
+          simp only [Option.bind_some]
+          rw [show (4 : Nat) = 3 + 1 from rfl, parseLoop_p]
+          have s2 : setFlag { path := path, pathSet := true, visited := [119] } 112 (permString v1) =
+              some { path := path, pathSet := true, perms := codes, visited := [119, 112] } := by
+            simp [setFlag, hcodes]
+          rw [s2]
+          simp [parseLoop]
+        rw [this]
+        simp [finish]
+      refine ⟨.watch path codes [], { r0 with trips := [(f0, v0, eqOp), (LA.Gen.RuleTables.permField, v1, eqOp)], strings := [path] },
+        by rw [hperm]; exact hparse, ?_, ?_⟩
+      · simp only [ruleDataOf, addFileWatch, hclean, hhead, bne_self_eq_false, Bool.false_eq_true, if_false, hcne, hletters, step0,
+          Option.bind_some, step1, addKeys, List.isEmpty_nil, if_true, r0]
+      · exact toWire_congr_all _ _ hfl.symm hac.symm ht.symm hs.symm rfl hall
+    · -- with a key
+      rw [ht, hs, hfl] at hsa
+      simp only [SAligned, hf0S, if_true, hpermS, Bool.false_eq_true, if_false, hkeyS] at hsa
+      obtain ⟨s, rest, hsr, hv0, hok0, s2, rest2, hsr2, hv2, hok2, hrest⟩ := hsa
+      simp only [List.cons.injEq] at hsr
+      obtain ⟨rfl, rfl⟩ := hsr
+      simp only [List.cons.injEq] at hsr2
+      obtain ⟨rfl, rfl⟩ := hsr2
+      have step0 : addFilter env r0 (if env.isDir then ofString "dir" else ofString "path") [61] path =
+          some { r0 with trips := [(f0, v0, eqOp)], strings := [path] } := by
+        unfold addFilter
+        simp only [heq, hkind, r0, hexP, Bool.false_and, Bool.false_eq_true, if_false]
+        have := hok0.1
+        simp only at this
+        rw [filterValue_flags0 env { flags := LA.Gen.RuleTables.exitFilter, action := LA.Gen.RuleTables.alwaysAction } { flags := LA.Gen.RuleTables.exitFilter } rfl, this]
+        simp [hv0]
+      have step1 : addFilter env { r0 with trips := [(f0, v0, eqOp)], strings := [path] } (ofString "perm") [61] (permString v1) =
+          some { r0 with trips := [(f0, v0, eqOp), (LA.Gen.RuleTables.permField, v1, eqOp)], strings := [path] } := by
+        unfold addFilter
+        simp only [heq, hpermN, r0, hexP, Bool.false_and, Bool.false_eq_true, if_false]
+        have hfv : filterValue env { r0 with trips := [(f0, v0, eqOp)], strings := [path] } LA.Gen.RuleTables.permField eqOp (permString v1) = some (v1, none, none) := by
+          unfold filterValue
+          simp only [r0, hgp, show uidFields.contains LA.Gen.RuleTables.permField = false by decide +kernel,
+            show gidFields.contains LA.Gen.RuleTables.permField = false by decide +kernel,
+            show (LA.Gen.RuleTables.permField == LA.Gen.RuleTables.exitField) = false by decide,
+            show (LA.Gen.RuleTables.permField == LA.Gen.RuleTables.msgTypeField) = false by decide, hpermS,
+            show (LA.Gen.RuleTables.permField == LA.Gen.RuleTables.archField) = false by decide,
+            show (LA.Gen.RuleTables.exitFilter != LA.Gen.RuleTables.exitFilter) = false by decide,
+            show (eqOp != eqOp) = false by decide, Bool.false_eq_true, if_false, beq_self_eq_true, if_true, Option.map_some]
+        simp only [r0] at hfv
+        rw [hfv]
+        simp
+      have step2 : addFilter env { r0 with trips := [(f0, v0, eqOp), (LA.Gen.RuleTables.permField, v1, eqOp)], strings := [path] } (ofString "key") [61] key =
+          some { r0 with trips := [(f0, v0, eqOp), (LA.Gen.RuleTables.permField, v1, eqOp), (LA.Gen.RuleTables.keyField, v2, eqOp)], strings := [path, key] } := by
+        unfold addFilter
+        simp only [heq, hkeyN, r0, hexP, Bool.false_and, Bool.false_eq_true, if_false]
+        have := hok2.1
+        simp only at this
+        have hfv2 := filterValue_flags0 env ({ flags := LA.Gen.RuleTables.exitFilter, action := LA.Gen.RuleTables.alwaysAction, trips := [(f0, v0, eqOp), (LA.Gen.RuleTables.permField, v1, eqOp)], strings := [path] } : RuleData) { flags := LA.Gen.RuleTables.exitFilter } rfl LA.Gen.RuleTables.keyField eqOp key
+        rw [hfv2, this]
+        simp [hv2]
+      have hkemp : key.isEmpty = false := by cases key with | nil => exact absurd rfl hkne | cons _ _ => rfl
+      have hsplit : splitList key = [key] := by
+        simp only [splitList, splitByte_no_sep 44 key hk44, List.map_cons, List.map_nil, hkey]
+      have hwt : watchTokens path (permString v1) key = [tokW, path, tokP, permString v1, tokK, key] := by simp [watchTokens, hkemp]
+      have hparse : parseArgs (watchTokens path (permString v1) key) = some (.watch path codes [key]) := by
+        rw [hwt]
+        unfold parseArgs
+        have : parseLoop ([tokW, path, tokP, permString v1, tokK, key].length + 1) [tokW, path, tokP, permString v1, tokK, key] {} =
+            some ({ path := path, pathSet := true, perms := codes, keys := [key], visited := [119, 112, 107] }, 0) := by
+          show parseLoop (6 + 1) _ _ = _
+          rw [parseLoop_w]
+          have s1 : setFlag {} 119 path = some { path := path, pathSet := true, visited := [119] } := by
+            simp [setFlag]
+          rw [s1]
+          simp only [Option.bind_some]
+          rw [show (6 : Nat) = 5 + 1 from rfl, parseLoop_p]
+          have s2 : setFlag { path := path, pathSet := true, visited := [119] } 112 (permString v1) =
+              some { path := path, pathSet := true, perms := codes, visited := [119, 112] } := by
+            simp [setFlag, hcodes]
+          rw [s2]
+          simp only [Option.bind_some]
+          rw [show (5 : Nat) = 4 + 1 from rfl, parseLoop_k]
+          have s3 : setFlag { path := path, pathSet := true, perms := codes, visited := [119, 112] } 107 key =
+              some { path := path, pathSet := true, perms := codes, keys := [key], visited := [119, 112, 107] } := by
+            simp [setFlag, hsplit]
+          rw [s3]
+          simp [parseLoop]
+        rw [this]
+        simp [finish]
+      refine ⟨.watch path codes [key], { r0 with trips := [(f0, v0, eqOp), (LA.Gen.RuleTables.permField, v1, eqOp), (LA.Gen.RuleTables.keyField, v2, eqOp)], strings := [path, key] },
+        by rw [hperm]; exact hparse, ?_, ?_⟩
+      · simp only [ruleDataOf, addFileWatch, hclean, hhead, bne_self_eq_false, Bool.false_eq_true, if_false, hcne, hletters, step0,
+          Option.bind_some, step1, addKeys, List.isEmpty_cons, joinWith, step2, r0]
+      · exact toWire_congr_all _ _ hfl.symm hac.symm ht.symm hs.symm rfl hall
+
+/-- non-vacuity of `C07_roundtrip_watch`: what `-w /etc/passwd -p wa -k k` builds is recognised as a
+watch, and the hypotheses about the filesystem and the key hold. -/
+example : ((ruleDataOf ⟨false, [], []⟩ (.watch (ofString "/etc/passwd") [2, 4] [ofString "k"])).map (fun r =>
+      (asFileWatch r == some (ofString "/etc/passwd", ofString "wa", ofString "k")) &&
+      ((false : Bool) == (r.fields.head? == some LA.Gen.RuleTables.dirField)) &&
+      (trimSpace (ofString "k") == ofString "k"))) = some true := by
+  decide +kernel
+
 /-- Wire round trip: the library's own decoder (fromWireFormat + fromAuditRuleData, the first half
 of ToCommandLine) inverts its encoder on everything rule.Build produces — list, action, every
 (field, value, operator) triple in order, every string, and the syscall set (as a set; listed
